@@ -2,6 +2,7 @@ package main
 
 import (
 	"fmt"
+	"os"
 	"go/constant"
 	"go/token"
 	"go/types"
@@ -302,7 +303,7 @@ func (o *Obligation) Script(produceModels bool) string {
 	goalText := o.PC + " " + o.Goal + " " + o.Extra
 	hyps := vc.asserts[:o.Prefix]
 	var rfam map[string]bool
-	if !o.Canary && !vc.noSlice {
+	if !o.Canary && !vc.noSlice && os.Getenv("GOVC_NOSLICE") == "" {
 		hyps, rfam = sliceHyps(hyps, vc.axiomAsserts, goalText, declared)
 	}
 	// heap well-typedness: every cell of every (relevant) heap version satisfies its type invariant
@@ -360,6 +361,8 @@ func (o *Obligation) Script(produceModels bool) string {
 					inv = implies(or(ptrs...), sx("<", sx("l_base", sx("unbox_Loc", sx("i_val", sel))), bound))
 				}
 			}
+			// canonical nil: a nil interface cell has the nil payload (fires only where the payload is inspected)
+			fmt.Fprintf(&b, "(assert (forall ((l!t Loc)) (! (=> (= (i_dyn %s) T_nil) (= (i_val %s) any_nil)) :pattern ((i_val %s)))))\n", sel, sel, sel)
 		case *types.Pointer, *types.Map:
 			if bound != "" {
 				inv = or(eq(sel, nilLoc), and(sx("<", "0", sx("l_base", sel)), sx("<", sx("l_base", sel), bound)))
